@@ -21,6 +21,22 @@ func (c countingRunner) Run(t *task.Task) error {
 func (c countingRunner) Cancel() {}
 func (c countingRunner) Finish() {}
 
+type gatedRunner struct {
+	gate    chan struct{}
+	started chan struct{}
+}
+
+func (g gatedRunner) Run(t *task.Task) error {
+	select {
+	case g.started <- struct{}{}:
+	default:
+	}
+	<-g.gate
+	return nil
+}
+func (g gatedRunner) Cancel() {}
+func (g gatedRunner) Finish() {}
+
 // DoubleInclusion: one pipeline included by two or three stages that become ready in the same
 // pass: the nested Schedule calls run over ONE graph object at the same time (the interleavings
 // of Taskctl.tla's Visit steps of two live loops). With a pause of 10 us the loops collide often
@@ -60,6 +76,44 @@ func DoubleInclusion(env *core.Env, rep *core.Report, iters int) int {
 			if badAt < 0 {
 				badAt, got = i, n
 			}
+		}
+	}
+	// C04: two stages that include the same pipeline and are eligible together both run (both are
+	// Running while the pipeline's task is in flight); neither waits for the other to be over
+	for k := 0; k < 5; k++ {
+		gate := make(chan struct{})
+		started := make(chan struct{}, 4)
+		inner, _ := scheduler.NewExecutionGraph(&scheduler.Stage{Name: "u1", Task: task.FromCommands("true")})
+		a, b := &scheduler.Stage{Name: "a", Pipeline: inner}, &scheduler.Stage{Name: "b", Pipeline: inner}
+		outer, err := scheduler.NewExecutionGraph(a, b)
+		if err != nil {
+			core.Broken("graph: %v", err)
+		}
+		s := scheduler.NewScheduler(gatedRunner{gate, started})
+		s.VerifSetPause(time.Millisecond)
+		done := make(chan error, 1)
+		go func() { done <- s.Schedule(outer) }()
+		select {
+		case <-started:
+		case <-time.After(10 * time.Second):
+		}
+		both := false
+		lim := time.Now().Add(3 * time.Second)
+		for time.Now().Before(lim) && !both {
+			both = a.ReadStatus() == scheduler.StatusRunning && b.ReadStatus() == scheduler.StatusRunning
+			time.Sleep(time.Millisecond)
+		}
+		sa, sb := statusName[a.ReadStatus()], statusName[b.ReadStatus()]
+		close(gate)
+		select {
+		case <-done:
+		case <-time.After(20 * time.Second):
+		}
+		if !both {
+			rep.Add(core.Finding{Prop: "C04", Key: "C04:doubly-included-pipeline:including-stages-do-not-run-together",
+				What:   fmt.Sprintf("two stages without dependencies include the same pipeline: while its task was in flight (3 s) they were %s and %s, not both Running", sa, sb),
+				Detail: nil})
+			break
 		}
 	}
 	if bad > 0 {
